@@ -186,6 +186,31 @@ def crc32(data):
     return binascii.crc32(data) & 0xffffffff
 
 
+def displace_dynamic_section(data, which=0):
+    """A still valid image whose SHT_DYNAMIC section no longer coincides with PT_DYNAMIC: the section header is moved one entry
+    into the table (offset and address + one entry, size - one entry) and linked to another string table of the image.  The
+    segment view must not depend on it (it has DT_STRTAB); -> bytes or None when the image has no such section / no other string table."""
+    r = elfraw.Raw(data)
+    if not r.ok or not r.sections:
+        return None
+    dyn = [p for p in r.segments if p['p_type'] == elfraw.PT['DYNAMIC']]
+    secs = [x for x in r.sections if x['sh_type'] == elfraw.SHT['DYNAMIC'] and dyn and x['sh_offset'] == dyn[0]['p_offset']]
+    if not secs:
+        return None
+    sec = secs[0]
+    ent = 8 if r.cls == 32 else 16
+    others = [x for x in r.sections if x['sh_type'] == elfraw.SHT['STRTAB'] and x['_index'] != sec['sh_link'] and x['sh_size'] > 1]
+    if not others or sec['sh_size'] < 2 * ent:
+        return None
+    other = others[which % len(others)]
+    out = bytearray(data)
+    new = dict(sh_offset=sec['sh_offset'] + ent, sh_addr=sec['sh_addr'] + ent, sh_size=sec['sh_size'] - ent, sh_link=other['_index'])
+    for n, o, w in r.shdr_fields:
+        if n in new:
+            out[sec['_off'] + o:sec['_off'] + o + w] = new[n].to_bytes(w, r.bo)
+    return bytes(out)
+
+
 def drop_section_headers(data, mode, noise=None):
     """Section-header loss: (1) e_shoff = e_shnum = e_shstrndx = 0; (2) the same and the old table
     overwritten with noise; (3) the same and the file truncated at the old table when nothing a
